@@ -72,7 +72,13 @@ class Report:
         undecided = []
         proved = 0
         by = {}
+        nbounded = 0
         for ob in self.obs:
+            if ob.status == 'proved' and ob.meta.get('bounded'):
+                # a bounded stand-in: checked, reported, never counted as
+                # proved
+                nbounded += 1
+                continue
             if ob.status == 'proved':
                 proved += 1
                 for b in (ob.by or ['z3']):
@@ -109,7 +115,8 @@ class Report:
                 self.prop, ob.oid, (ob.detail or 'solver unknown')[:200]))
         for e in self.errors:
             lines.append('CHECKER-ERROR property=%s %s' % (self.prop, e))
-        nobl = len(self.obs) - len(known_hit)
+        nobl = len(self.obs) - len(known_hit) - nbounded
+        self.extra['bounded_obligations_checked'] = nbounded
         code = 0
         if self.errors:
             code = 3
@@ -132,9 +139,11 @@ class Report:
         for l in lines:
             print(l)
         print('%s %s: %d obligations, %d proved, %d known findings, '
-              '%d violations, %d undecided, %d functions, %.1fs' % (
+              '%d violations, %d undecided, %d functions, %.1fs%s' % (
                   self.prop, self.tier, nobl, proved, len(known_hit), nviol,
-                  len(undecided), len(self.functions), time.time() - self.t0))
+                  len(undecided), len(self.functions), time.time() - self.t0,
+                  (' (+%d bounded stand-in obligations held, not counted)' %
+                   nbounded) if nbounded else ''))
         return code
 
     def write_replay(self, ob):
